@@ -91,7 +91,8 @@ def parse(expr: str):
             elif (expected & ParserState.RParen) == 0:
                 raise MathExpressionException('Unexpected ")"', scanner)
 
-            expected = ParserState.Operator | ParserState.RParen | ParserState.LParen
+            # Implicit calls like `(1)(2)` are not a part of this grammar
+            expected = ParserState.Operator | ParserState.RParen
         else:
             raise MathExpressionException('Unknown character', scanner)
 
